@@ -402,6 +402,10 @@ def run(repo, rep):
     rep.clause("C03-i", "after a Reshape has been bypassed no later rewrite re-derives an operator's OFM shape from the re-shaped tensor (the operator would read IFM positions that its producer never wrote) [rule shared with C02-m]")
     c02.rule_shape_view(repo, rep, "C03-i")
     rule_copy_elision(repo, rep)
+    rep.clause("C03-m", "LUT residency extents are byte extents (address + storage_size())")
+    rep.clause("C03-n", "the LUT is (re)loaded for every stripe of an operator: the DMA flag is reset inside the stripe loops")
+    rep.clause("C03-o", "constant feature-map operands are copied into the flash image irrespective of their element count")
+    rule_round7(repo, rep)
     rep.clause("C03-l", "one activation slot per NPU operation: the activation of a packed activation operator replaces the primary operator's only if that slot is free (guard at the overwrite or in can_pack)")
     rule_activation_slot(repo, rep)
     rep.clause("C03-k", "pass packing automaton (test_sequence explored from the empty state): one main operation per NPU pass; a DMA copy (Memcpy) is packed alone - no activation is fused behind a copy that cannot apply it")
@@ -568,3 +572,53 @@ def rule_copy_elision(repo, rep):
     rep.check(has_addr and has_area, "C03-j", "ethosu/vela/high_level_command_stream_generator.py:dma_feature_map_if_necessary", "DMA unless the addresses are equal and the memories are the same",
               f"selected by `{str(norm(t))}`: with equal offsets in different memories (Dedicated_Sram: both at 0) the copy becomes a NOP and the destination is never written")
     rep.floor("C03-j", 1)
+
+
+def rule_round7(repo, rep):
+    """(m) LUT residency is tracked on byte intervals of SHRAM: every extent in lut.LUTState is address + storage_size() (a table of 256
+    uint32 entries occupies 1 KiB; counting entries evicts a quarter of what the DMA overwrites). (n) the LUT DMA flag is reset for every
+    stripe of the operator (inside the stripe loops): on 16-bank parts the operators interleaved with a cascaded LUT operator use the LUT
+    banks, the table has to be reloaded before each stripe. (o) a constant feature-map operand is copied into the flash image whatever
+    its element count: only rank-0 constants travel in the command stream, a [1]- or [1,1,1,1]-shaped constant is still read from region 0."""
+    lu = repo.mod("lut")
+    n = 0
+    for q in ("LUTState.put", "LUTState.find_best_address"):
+        f = lu.func(q)
+        for a in ast.walk(f):
+            if isinstance(a, ast.Assign) and len(a.targets) == 1 and isinstance(a.targets[0], ast.Name) and a.targets[0].id.startswith("end"):
+                n += 1
+                v = a.value
+                ok = isinstance(v, ast.BinOp) and isinstance(v.op, ast.Add) and any(isinstance(x, ast.Call) and isinstance(x.func, ast.Attribute) and x.func.attr == "storage_size" for x in (v.left, v.right))
+                rep.check(ok, "C03-m", f"ethosu/vela/lut.py:{q}", f"`{str(norm(a))}`: extent in bytes (address + storage_size())",
+                          "the extent is not the tensor's byte size: a 1 KiB / 2 KiB table (uint32 entries) evicts only the first quarter of the SHRAM range its DMA overwrites; a 256-byte table further inside stays "
+                          "'resident' and the next operator with an equal table reuses the clobbered slot")
+    if n < 3:
+        raise AnalysisError(f"lut.LUTState: {n} extents found")
+    hg = repo.mod("high_level_command_stream_generator")
+    f = hg.func("generate_high_level_commands_for_sched_op")
+    site = "ethosu/vela/high_level_command_stream_generator.py:generate_high_level_commands_for_sched_op"
+    resets = [a for a in ast.walk(f) if isinstance(a, ast.Assign) and len(a.targets) == 1 and str(norm(a.targets[0])) == "lut_dma_done" and str(norm(a.value)) == "False"]
+    if not resets:
+        raise AnalysisError("generate_high_level_commands_for_sched_op: lut_dma_done reset not found")
+    for a in resets:
+        loops = []
+        cur = hg.parents.get(a)
+        while cur is not None and cur is not f:
+            if isinstance(cur, ast.For):
+                loops.append(str(norm(cur.target)))
+            cur = hg.parents.get(cur)
+        rep.check(any("start_height" in l for l in loops), "C03-n", site, "lut_dma_done is reset inside the stripe loops (the table is loaded before every stripe)",
+                  f"reset outside the stripe loops (enclosing loops: {loops}): the LUT is loaded before the first stripe only; in a cascade on ethos-u55-32 / -64 the interleaved operators use the LUT banks as accumulators "
+                  "and later stripes look up in clobbered SHRAM")
+    ns = repo.mod("npu_serialisation")
+    g = ns.func("serialise_npu_subgraph_into_tensors")
+    site = "ethosu/vela/npu_serialisation.py:serialise_npu_subgraph_into_tensors"
+    k = 0
+    for i in ast.walk(g):
+        if isinstance(i, ast.If) and any(isinstance(c, ast.Call) and call_name(c) == "copy_ifm_values_to_memory_tensor" for st in i.body for c in ast.walk(st)):
+            k += 1
+            extra = [str(norm(c)) for c in conjuncts(i.test) if any(w in str(norm(c)) for w in ("elements(", "shape", "size", "len(", "values", "ndim"))]
+            rep.check(not extra, "C03-o", site, f"`{str(norm(i.test))[:70]}`: constant operands are copied into the flash image whatever their size",
+                      f"conjunct {extra}: a one-element constant of rank >= 1 is still emitted as a broadcast IFM2 in region 0 but its value is never written there: the NPU reads the zero fill")
+    if k < 2:
+        raise AnalysisError(f"serialise_npu_subgraph_into_tensors: {k} guarded copies of constant operands")
